@@ -27,7 +27,7 @@ type faultSpec struct {
 }
 
 type stepSpec struct {
-	Kind   string     `json:"kind"` // start | rename
+	Kind   string     `json:"kind"` // start (new process) | retry (same process asks again) | rename
 	Schema *schema    `json:"schema,omitempty"`
 	Fault  *faultSpec `json:"fault,omitempty"`
 	Old    string     `json:"old,omitempty"`
@@ -266,7 +266,7 @@ func run(sc *scenario) (coq string, tags []string, err error) {
 	for _, s := range sc.Steps {
 		if s.Kind == "rename" {
 			probes = addUniq(probes, seen, s.Old, s.New)
-		} else {
+		} else if s.Schema != nil {
 			for _, d := range s.Schema.Docs {
 				probes = addUniq(probes, seen, pkgName+"."+d.Name)
 			}
@@ -281,6 +281,7 @@ func run(sc *scenario) (coq string, tags []string, err error) {
 
 	var terms []string
 	var keys []uint64
+	var proc *process
 	nextKey := uint64(300001)
 	for _, s := range sc.Steps {
 		obs := &stepObs{}
@@ -300,16 +301,34 @@ func run(sc *scenario) (coq string, tags []string, err error) {
 			terms = append(terms, fmt.Sprintf("TRename %s %s %s %d %s", nm(s.Old), nm(s.New), s.Fault.coq(), obs.Code, obs.Dump.coq()))
 			tagset[fmt.Sprintf("rename:code%d", obs.Code)] = true
 		default:
-			def, e := s.Schema.build()
+			retry := s.Kind == "retry"
+			if retry && proc == nil {
+				return "", nil, fmt.Errorf("retry without a process")
+			}
+			var e error
+			if retry {
+				// the definition may only change while the configuration is not prepared yet
+				if s.Schema != nil && !proc.ready {
+					e = proc.grow(*s.Schema)
+				}
+			} else {
+				proc, e = newProcess(st, *s.Schema)
+			}
+			if e != nil {
+				return "", nil, e
+			}
+			def, e := proc.def()
 			if e != nil {
 				return "", nil, fmt.Errorf("schema does not build: %w", e)
 			}
 			qn, cn, sn := enumerate(def)
 			var docs []string
-			for _, d := range s.Schema.Docs {
-				docs = append(docs, pkgName+"."+d.Name)
+			for d := range proc.docs {
+				docs = append(docs, pkgName+"."+d)
 			}
-			as, e := start(st, def)
+			sort.Strings(docs)
+			as, e := proc.get()
+			proc.ready = e == nil
 			active = nil
 			obs.Code = errClass(e)
 			if e != nil {
@@ -318,7 +337,7 @@ func run(sc *scenario) (coq string, tags []string, err error) {
 			if obs.Dump, err = readDump(inner); err != nil {
 				return "", nil, err
 			}
-			tagset[fmt.Sprintf("start:code%d", obs.Code)] = true
+			tagset[fmt.Sprintf("%s:code%d", s.Kind, obs.Code)] = true
 			if s.Fault != nil {
 				tagset[fmt.Sprintf("fault:%s%d", s.Fault.Point, s.Fault.Reg)] = true
 				if fired {
@@ -338,6 +357,9 @@ func run(sc *scenario) (coq string, tags []string, err error) {
 					obs.SIDs = append(obs.SIDs, lookup{n, e2 == nil, uint64(sid)})
 				}
 				for _, n := range s.Puts {
+					if !proc.docs[strings.TrimPrefix(n, pkgName+".")] {
+						continue
+					}
 					key := nextKey
 					nextKey++
 					e3 := as.Records().PutJSON(1, map[appdef.FieldName]any{
@@ -381,8 +403,8 @@ func run(sc *scenario) (coq string, tags []string, err error) {
 					tagset["F20:duplicate-ids-after-rows-without-version"] = true
 				}
 			}
-			terms = append(terms, fmt.Sprintf("TStart %s %s %s %s %s %d %s %s %s %s",
-				coqNames(qn), coqNames(cn), coqNames(sn), coqNames(docs), s.Fault.coq(), obs.Code, obs.Dump.coq(),
+			terms = append(terms, fmt.Sprintf("TStart %s %s %s %s %s %s %d %s %s %s %s",
+				kit.Bool(retry), coqNames(qn), coqNames(cn), coqNames(sn), coqNames(docs), s.Fault.coq(), obs.Code, obs.Dump.coq(),
 				coqLookups(obs.QIDs), coqLookups(obs.SIDs), kit.List(recTerms)))
 		}
 	}
@@ -407,8 +429,10 @@ func shapeKey(sc *scenario) string {
 	for _, s := range sc.Steps {
 		if s.Kind == "rename" {
 			fmt.Fprintf(&sb, "|R:%s>%s", s.Old, s.New)
+		} else if s.Kind == "retry" && s.Schema == nil {
+			sb.WriteString("|T")
 		} else {
-			sb.WriteString("|S")
+			sb.WriteString("|" + strings.ToUpper(s.Kind[:1]) + "s")
 			for _, d := range s.Schema.Docs {
 				fmt.Fprintf(&sb, ":%s", d.Name)
 				if d.Singleton {
@@ -424,15 +448,18 @@ func shapeKey(sc *scenario) string {
 	return sb.String()
 }
 
-// non-trivial: at least two starts and (a name dropped and/or re-added between versions, a
-// rename, an injected failure, or seeded rows)
+// non-trivial: at least two starts / in-process retries and (a name dropped and/or re-added
+// between versions, a rename, a retry, an injected failure, or seeded rows)
 func nontrivial(sc *scenario) bool {
 	starts := 0
 	var prev map[string]bool
 	changed := false
 	for _, s := range sc.Steps {
-		if s.Kind == "rename" || s.Fault != nil {
+		if s.Kind == "rename" || s.Kind == "retry" || s.Fault != nil {
 			changed = true
+		}
+		if s.Kind == "retry" {
+			starts++
 		}
 		if s.Kind == "start" {
 			starts++
